@@ -1796,6 +1796,7 @@ func Expire() int {
 	mid := (low + high) / 2
 
 	space := alloc.Bytes()
+	verifYield("Expire.space")
 	if space < mid {
 		return +1
 	} else if space < high {
